@@ -3,6 +3,8 @@ import PP.Model.Aggregate
 import PP.Model.Names
 import PP.Model.Loop
 import PP.Driver.OpsC19
+import PP.Driver.OpsC18
+import PP.Driver.OpsC17
 /-
 Request handlers of the model driver.
 -/
@@ -154,6 +156,12 @@ def handle (j : Json) : Except String Json := do
   | _ =>
     match PP.OpsC19.handle op j with
     | some r => r
-    | none => throw s!"unknown op {op}"
+    | none =>
+      match PP.OpsC18.handle op j with
+      | some r => r
+      | none =>
+        match PP.OpsC17.handle op j with
+        | some r => r
+        | none => throw s!"unknown op {op}"
 
 end PP.Ops
